@@ -40,7 +40,8 @@ TRUSTED = [
     "falls strictly between the exact and the rounded threshold are skipped (counted as rounding_borderline)",
     "RandomState(seed).randint reproduces the selector's bootstrap draws (same seed, same call sequence)",
     "harness loop that drives step/cont (cross-checked on every case against the extracted complete greedy run on the recorded loss table)",
-    "EnsemblePredictor: a fresh evaluator numbers its jobs 0..n-1 in submission order; completion order is recorded inside predict()",
+    "EnsemblePredictor: the ensemble's evaluator numbers its jobs 0, 1, 2, ... in submission order and keeps counting across calls "
+    "(call c of n members = job numbers c*n .. c*n+n-1, handed to the model as integers); completion order is recorded inside predict()",
 ]
 ASSUMPTIONS = [
     "k_init >= 1, k >= 0, eps_tol >= 0, at least one candidate; every aggregated loss is finite",
@@ -142,6 +143,8 @@ class TableLoss:
             return np.array([w[j] if j < len(w) else 0.0])
         key = tuple(Fraction(float(v)).limit_denominator(97) for v in w)
         h = int(hashlib.sha1((repr(key) + self.salt).encode()).hexdigest(), 16)
+        if self.mode.startswith("nhash"):  # always negative (like a log-likelihood of a sharp predictive distribution)
+            return np.array([float(-1 - h % int(self.mode[5:]))])
         if self.mode.startswith("shash"):  # signed values: a generic loss callable may be negative (e.g. a log-likelihood)
             v = int(self.mode[5:])
             return np.array([float(h % v - v // 2)])
@@ -482,13 +485,22 @@ def _online_topk(m, S, y, preds, k, res, st, out):
 
 # ------------------------------------------------------------------ EnsemblePredictor: member order under every latency order
 def check_predictor(case):
+    """One EnsemblePredictor, one or SEVERAL predictions_from_predictors calls on it (case["calls"]: one list of ranks per
+    call; ranks[i] = position of member i in the intended completion order of that call).
+
+    The ensemble's evaluator keeps numbering its jobs across calls ("0.<number>"): call c of an n-member ensemble
+    submits the job numbers c*n .. c*n+n-1.  The model's order_by_id takes the ids as INTEGERS (Z, compared with
+    Z.leb - Model.order_by_id; C20_order_by_id needs strictly increasing integer ids), so the harness hands it
+    (job number, member) pairs in completion order; sequences of calls and ensembles of 11-13 members make the job
+    numbers of one call straddle 9->10 and 99->100, where the order of the id STRINGS differs from the integer order
+    (C20_string_ids_refuted)."""
     from deephyper.ensemble import EnsemblePredictor
     from deephyper.ensemble.aggregator import MeanAggregator
     from deephyper.predictor import Predictor
 
-    ranks = case["ranks"]  # ranks[i] = position of member i in the intended completion order
-    n = len(ranks)
-    done = []
+    calls = case["calls"] if "calls" in case else [case["ranks"]]
+    n = len(calls[0])
+    state = dict(ranks=calls[0], done=[])
     lock = threading.Lock()
 
     class P(Predictor):
@@ -496,33 +508,42 @@ def check_predictor(case):
             self.i = i
 
         def predict(self, X):
-            time.sleep(case["unit"] * ranks[self.i])
+            time.sleep(case["unit"] * state["ranks"][self.i])
             with lock:
-                done.append(self.i)
-            return np.array([self.i])
+                state["done"].append(self.i)
+            return np.array([self.i])  # member-distinguishing prediction
 
     members = [P(i) for i in range(n)]
-    res = dict(ok=True, kind="oracle", clause="", sig={}, nontrivial=False, desc=["members=%d" % n])
-
-    def run():
-        ens = EnsemblePredictor(predictors=members, aggregator=MeanAggregator(), evaluator={"method": "thread", "method_kwargs": {"num_workers": n}})
-        return ens.predictions_from_predictors(np.zeros((1, 1)), members)
-
-    st, out = with_watchdog(run, seconds=20, wall=True)
-    if st == "timeout":
-        return dict(res, ok=False, clause="predictor_total", sig={"error": "nontermination"}, detail="no answer within 20s")
-    if st == "exc":
-        raise out
-    got = [int(np.asarray(a).reshape(-1)[0]) for a in out]
-    completion = list(done)
-    res["nontrivial"] = completion != sorted(completion)
-    res["desc"].append("completion_order=%s" % ("permuted" if res["nontrivial"] else "as_submitted"))
+    last = len(calls) * n - 1
+    res = dict(ok=True, kind="oracle", clause="", sig={}, nontrivial=False,
+               desc=["members=%s" % (n if n <= 5 else "6-10" if n <= 10 else "11+"), "calls=%s" % (len(calls) if len(calls) < 3 else "3+"),
+                     "last_job_number=%s" % ("<10" if last < 10 else "10-99" if last < 100 else "100+")])
     m = model()
-    if len(got) != n or not m.call(F_OKMEMBERS, [n, got]):
-        return dict(res, ok=False, clause="member_order", detail=dict(returned=got, completion=completion))
-    mod = m.call(F_BYID, [[i, i] for i in completion])
-    if [p[1] for p in mod] != got:
-        return dict(res, ok=False, kind="corr", clause="order_by_id", detail=dict(model=mod, impl=got, completion=completion))
+    st, ens = with_watchdog(lambda: EnsemblePredictor(predictors=members, aggregator=MeanAggregator(),
+                                                       evaluator={"method": "thread", "method_kwargs": {"num_workers": n}}), seconds=20, wall=True)
+    if st != "ok":
+        if st == "exc":
+            raise ens
+        return dict(res, ok=False, clause="predictor_total", sig={"error": "nontermination"}, detail="constructor: no answer within 20s")
+    permuted = 0
+    for c, ranks in enumerate(calls):
+        state["ranks"], state["done"] = ranks, []
+        st, out = with_watchdog(lambda: ens.predictions_from_predictors(np.zeros((1, 1)), members), seconds=20, wall=True)
+        if st == "timeout":
+            return dict(res, ok=False, clause="predictor_total", sig={"error": "nontermination"}, detail="call %d: no answer within 20s" % c)
+        if st == "exc":
+            raise out
+        got = [int(np.asarray(a).reshape(-1)[0]) for a in out]
+        completion = list(state["done"])
+        permuted += completion != sorted(completion)
+        base = c * n
+        if len(got) != n or not m.call(F_OKMEMBERS, [n, got]):
+            return dict(res, ok=False, clause="member_order", detail=dict(call=c, job_numbers=[base, base + n - 1], returned=got, completion=completion))
+        mod = m.call(F_BYID, [[base + i, i] for i in completion])
+        if [p[1] for p in mod] != got:
+            return dict(res, ok=False, kind="corr", clause="order_by_id", detail=dict(call=c, model=mod, impl=got, completion=completion))
+    res["nontrivial"] = permuted > 0 or last >= 10
+    res["desc"].append("completion_order=%s" % ("permuted" if permuted else "as_submitted"))
     return res
 
 
@@ -626,7 +647,7 @@ def gen_case(rng, i, small=False):
     n = rng.choice([1, 2, 2, 3, 3, 4, 4, 5, 6, 8, 10, 12]) if not small else rng.randint(1, 4)
     msamp = rng.randint(1, 5)
     if kind == "table":
-        mode = rng.choice(["hash2", "hash4", "hash16", "hash64", "shash8", "shash64", "weight_of:%d" % rng.randrange(n)])
+        mode = rng.choice(["hash2", "hash4", "hash16", "hash64", "shash8", "shash64", "nhash4", "nhash16", "weight_of:%d" % rng.randrange(n)])
         case = dict(kind=kind, preds=[0] * n, table=mode, salt=str(rng.randint(0, 10 ** 6)))
         if mode.startswith("weight_of"):
             case["_frac_loss"] = True  # not integer valued: eps_tol = 0 would allow an endless strictly decreasing run
@@ -678,10 +699,36 @@ def gen_online(count):
 
 def gen_predictor(maxn):
     def gen(rng, tier):
+        # one call, every latency order of <= maxn members
         for n in range(1, (maxn if tier != "search" else 3) + 1):
             for perm in itertools.permutations(range(n)):
                 yield dict(ranks=list(perm), unit=0.04)
+
+        def perm(n):
+            p = list(range(n))
+            rng.shuffle(p)
+            return p
+
+        th = tier == "thorough"
+        # one long-lived ensemble queried several times: the job numbers of a call pass 9->10 (and 99->100)
+        seqs = [(3, 5), (2, 7), (4, 4), (6, 3), (9, 2), (7, 3), (4, 30), (7, 16), (3, 36)]
+        if th:
+            seqs += [(n, c) for n in (2, 3, 4, 5, 6, 8) for c in (6, 12)] + [(5, 25), (3, 40), (9, 13), (10, 11)]
+        if tier == "search":
+            seqs = [(3, 5), (6, 3)]
+        for n, c in seqs:
+            yield dict(calls=[perm(n) for _ in range(c)], unit=0.004 if n * c > 40 else 0.01)
+        # larger ensembles, a few sampled latency orders, one or two calls
+        for n in (11, 12, 13):
+            orders = [list(range(n)), list(range(n))[::-1]] + [perm(n) for _ in range(4 if th else 1)]
+            for k, o in enumerate(orders):
+                yield dict(calls=[o] + ([perm(n)] if k % 2 else []), unit=0.006)
     return gen
+
+
+def shrink_predictor(case):
+    if "calls" in case and len(case["calls"]) > 1:
+        yield dict(case, calls=case["calls"][:-1])  # prefixes only: the job numbers of a call depend on the calls before it
 
 
 # ------------------------------------------------------------------ shrinkers
@@ -746,5 +793,5 @@ def streams(tier):
         Stream("topk", mark_search(gen_topk(5000 if th else 300)), searching("topk", check_topk), shrink_sel, timeout=240),
         Stream("greedy", mark_search(gen_greedy(8000 if th else 400)), searching("greedy", check_greedy), shrink_sel, timeout=240),
         Stream("online", mark_search(gen_online(1000 if th else 60)), searching("online", check_online), shrink_online, timeout=240),
-        Stream("predictor_order", gen_predictor(5 if th else 4), check_predictor, None, timeout=240),
+        Stream("predictor_order", gen_predictor(5 if th else 4), check_predictor, shrink_predictor, timeout=240),
     ]
